@@ -32,6 +32,9 @@ type mix struct {
 	// range (the tail header during a head-side deletion, the head header during a tail-side one) and waits for Sync:
 	// the flush loop runs (advanceHead / recedeTail) in the middle of the deletion
 	Appender bool `json:"appender,omitempty"`
+	// AppendNew (with Appender): during a head-side deletion the handler appends the header right above the old
+	// head instead (new, outside the range, stored beyond the gap the deletion leaves): it must not get lost
+	AppendNew bool `json:"append_new,omitempty"`
 }
 
 func (m mix) n() int {
@@ -102,6 +105,16 @@ func (e *env) populate(m mix) bool {
 			}
 			var x *vh.Header
 			switch {
+			case h > tl.Height() && m.AppendNew:
+				top := uint64(0)
+				for k := range e.P {
+					top = max(top, k)
+				}
+				x = e.chain.At(top + 1)
+				if x == nil {
+					return nil
+				}
+				e.newDuring = x.Height()
 			case h > tl.Height():
 				x = tl // head-side deletion: the tail is outside the range
 			case hd.Height() > h:
@@ -295,6 +308,8 @@ func storeMixes(r *mon.Run) []mix {
 	add(mix{Cfg: Cfg{SC: 8, IC: 8, WB: 1, Flavour: "ctx"}, T0: 1, Batches: []int{7}, Reader: true})
 	add(mix{Cfg: Cfg{SC: 64, IC: 64, WB: 1, Flavour: "plain"}, T0: 2, Batches: []int{7}, Appender: true})
 	add(mix{Cfg: Cfg{SC: 8, IC: 8, WB: 4, Flavour: "ctx"}, T0: 1, Batches: []int{5, 2}, Appender: true})
+	add(mix{Cfg: Cfg{SC: 64, IC: 64, WB: 64, Flavour: "plain"}, T0: 1, Batches: []int{6}, Appender: true, AppendNew: true})
+	add(mix{Cfg: Cfg{SC: 8, IC: 8, WB: 4, Flavour: "ctx"}, T0: 2, Batches: []int{4, 3}, Appender: true, AppendNew: true})
 	for _, fl := range []string{"plain", "ctx"} {
 		add(mix{Cfg: Cfg{SC: 8, IC: 8, WB: 1, Flavour: fl}, T0: 3, Batches: []int{6}})                   // all flushed
 		add(mix{Cfg: Cfg{SC: 512, IC: 512, WB: 64, Flavour: fl}, T0: 3, Batches: []int{8}})              // nothing flushed
@@ -475,6 +490,13 @@ func (e *env) afterNil(before snap, from, to uint64, class, sig string) {
 		}
 	}
 	e.resolves(sig, before.onDisk)
+	if e.newDuring > 0 {
+		// a header appended (and synced) while the deletion was running, outside the range
+		if g, err := e.st.Get(context.Background(), e.chain.At(e.newDuring).Hash()); err != nil || g.Height() != e.newDuring {
+			c.Violation(sig+"/header-appended-during-the-deletion-lost", fmt.Sprintf("height %d was appended and synced from inside an OnDelete handler during DeleteRange(%d,%d); now Get(hash) says: %v", e.newDuring, from, to, err), nil)
+		}
+		e.P[e.newDuring] = true
+	}
 	if c.Violated() {
 		return
 	}
